@@ -21,7 +21,7 @@ ASSUMPTIONS = ["a group must survive a re-presentation only if its residual unde
                "other side (certified margin); other groups may legitimately flip",
                "supercell counts are asserted only when every cell width exceeds twice (pattern diameter + 2 atol), so that two periodic images "
                "of one unit-cell group cannot be distinct occurrences"]
-NRUNS = {"quick": 700, "thorough": 12000}
+NRUNS = {"quick": 2500, "thorough": 30000}
 RUN_TIMEOUT = 240.0
 
 REAL = [
